@@ -320,6 +320,8 @@ type sendRec struct {
 	seq  int
 	at   time.Duration
 	data []byte
+	// failed: this Send returned the injected port error
+	failed bool
 }
 
 var errPort = errors.New("simulated port send error")
@@ -340,6 +342,7 @@ func (o *simOut) Send(b []byte) error {
 		}
 	}
 	if o.cfg.ErrEvery > 0 && o.calls%o.cfg.ErrEvery == 0 {
+		(*o.log)[len(*o.log)-1].failed = true
 		return errPort
 	}
 	return nil
@@ -471,7 +474,8 @@ func (s *PlaySc) Run(env *core.Env, st *core.Stats) (vs []core.Violation) {
 	}
 
 	var log, firstLog []sendRec
-	var playErr error
+	var playErr, firstErr error // playErr: of the last playback, firstErr: of the first of two
+	var readErr error
 	var pan string
 	var total time.Duration
 	body := func(t *testing.T) {
@@ -498,15 +502,16 @@ func (s *PlaySc) Run(env *core.Env, st *core.Stats) (vs []core.Violation) {
 			tr = smf.ReadTracksFrom(bytes.NewReader(bf.Bytes()), s.Select...)
 		}
 		if tr.Error() != nil {
-			playErr = tr.Error()
+			readErr = tr.Error()
 			return
 		}
 		rounds := 1
 		if s.Twice {
 			rounds = 2
 		}
-		for round := 0; round < rounds && playErr == nil; round++ {
+		for round := 0; round < rounds; round++ {
 			if round == 1 {
+				firstErr, playErr = playErr, nil
 				firstLog = append([]sendRec{}, log...)
 				log = log[:0]
 				seq = 0
@@ -549,8 +554,8 @@ func (s *PlaySc) Run(env *core.Env, st *core.Stats) (vs []core.Violation) {
 	if pan != "" {
 		return []core.Violation{core.V("panic", panicKey(pan), "playback panicked: %s; %s", pan, desc())}
 	}
-	if playErr != nil {
-		return []core.Violation{core.V("play-error", "err", "playback of a valid metric file failed: %v; %s", playErr, desc())}
+	if readErr != nil {
+		return []core.Violation{core.V("play-error", "err", "playback of a valid metric file failed: %v; %s", readErr, desc())}
 	}
 
 	if st != nil {
@@ -637,8 +642,14 @@ func (s *PlaySc) Run(env *core.Env, st *core.Stats) (vs []core.Violation) {
 	// oracle (applied to each playback on its own)
 	if s.Twice {
 		st.Probe("same-TracksReader-played-twice")
-		if v := s.checkPlayback(firstLog, exp, order, segments, desc, "first playback: "); v != nil {
+		if v := s.checkPlayback(firstLog, firstErr, exp, order, segments, desc, "first playback: "); v != nil {
 			return v
+		}
+		if firstErr != nil {
+			// the first playback reported a failing port: what a second one of the same reader
+			// does then is not fixed by the property
+			st.Probe("second-playback-after-a-reported-port-error")
+			return nil
 		}
 		// expected ports of the second playback: rotated by one
 		exp2 := map[string]*expPlay{}
@@ -651,14 +662,36 @@ func (s *PlaySc) Run(env *core.Env, st *core.Stats) (vs []core.Violation) {
 				order2[ti] = append(order2[ti], &y)
 			}
 		}
-		return s.checkPlayback(log, exp2, order2, segments, desc, "second playback of the same TracksReader (ports rotated by one): ")
+		return s.checkPlayback(log, playErr, exp2, order2, segments, desc, "second playback of the same TracksReader (ports rotated by one): ")
 	}
-	return s.checkPlayback(log, exp, order, segments, desc, "")
+	return s.checkPlayback(log, playErr, exp, order, segments, desc, "")
 }
 
-func (s *PlaySc) checkPlayback(log []sendRec, exp map[string]*expPlay, order [][]*expPlay, segments int, desc func() string, which string) []core.Violation {
+func (s *PlaySc) checkPlayback(log []sendRec, playErr error, exp map[string]*expPlay, order [][]*expPlay, segments int, desc func() string, which string) []core.Violation {
 	desc0 := desc
 	desc = func() string { return which + desc0() }
+	// A port that reports a failure (injected): the playback may report it and may stop there.
+	// Everything else still holds for what is sent, and everything scheduled before the first
+	// failed Send must have been sent. Without a failing port an error is a violation.
+	firstFailed := -1
+	for i, r := range log {
+		if r.failed {
+			firstFailed = i
+			break
+		}
+	}
+	if playErr != nil && firstFailed < 0 {
+		return []core.Violation{core.V("play-error", "err", "playback of a valid metric file failed although no port reported an error: %v; %s", playErr, desc())}
+	}
+	var cut *big.Rat // scheduled time reached when the first Send failed
+	if firstFailed >= 0 {
+		cut = new(big.Rat)
+		for _, r := range log[:firstFailed+1] {
+			if x := exp[string(r.data)]; x != nil && x.sched.Cmp(cut) > 0 {
+				cut = x.sched
+			}
+		}
+	}
 	tol := big.NewRat(int64(segments), 1) // 1 microsecond per tempo segment
 	seen := map[string]bool{}
 	lastIdx := map[int]int{}
@@ -704,6 +737,9 @@ func (s *PlaySc) checkPlayback(log []sendRec, exp map[string]*expPlay, order [][
 	}
 	for ti := range order {
 		for _, x := range order[ti] {
+			if !seen[string(x.msg)] && cut != nil && x.sched.Cmp(cut) >= 0 {
+				continue // not sent after a port had reported a failure: the playback may stop there
+			}
 			if !seen[string(x.msg)] {
 				return []core.Violation{core.V("exactly-once", "missing", "message #%d (% X) of track %d was never sent to port %d; %s", x.idx, x.msg, ti, x.port, desc())}
 			}
